@@ -29,7 +29,7 @@ type countingLoader struct {
 func (l *countingLoader) Load(name string) (string, error) {
 	l.loads[name]++
 	if v, ok := l.content[name]; ok && v != 0 {
-		return fmt.Sprintf("%s:%d", name, v), nil
+		return verSource(name, v), nil
 	}
 	return "", fmt.Errorf("%w: %s", twig.ErrTemplateNotFound, name)
 }
@@ -40,9 +40,42 @@ type tsLoader struct{ countingLoader }
 // fsLoader: the timestamp-aware loader as a real FileSystemLoader on a scratch directory (its Load calls counted);
 // put / delete write and remove files, the model's time stamps become file modification times
 type fsLoader struct {
-	inner *twig.FileSystemLoader
+	inner interface {
+		twig.Loader
+		GetModifiedTime(name string) (int64, error)
+	}
 	dir   string
 	loads map[string]int
+	// compiled: the loader is a CompiledLoader (files hold serialised compiled templates)
+	compiled bool
+}
+
+// write puts version v of a name into the loader's directory (slot: search path)
+func (l *fsLoader) write(slot int, name string, v int, mt int64) error {
+	p := l.dir + slotDir(slot) + name
+	data := []byte(verSource(name, v))
+	if l.compiled {
+		// what the file records about the template it was compiled from is the same for every version (a build that
+		// normalises time stamps); the loader's time stamp is the file's
+		var err error
+		data, err = twig.SerializeCompiledTemplate(&twig.CompiledTemplate{Name: name, Source: verSource(name, v), LastModified: 1, CompileTime: 1})
+		if err != nil {
+			return err
+		}
+		p += ".twig.compiled"
+	}
+	if err := os.WriteFile(p, data, 0o644); err != nil {
+		return err
+	}
+	t := fsEpoch.Add(time.Duration(mt) * time.Second)
+	return os.Chtimes(p, t, t)
+}
+func (l *fsLoader) remove(slot int, name string) {
+	p := l.dir + slotDir(slot) + name
+	if l.compiled {
+		p += ".twig.compiled"
+	}
+	os.Remove(p)
 }
 
 func (l *fsLoader) Load(name string) (string, error) {
@@ -85,6 +118,18 @@ type CCase struct {
 	// Chain: the engine has ONE loader, a ChainLoader over the two (histories without auto-reload only: a chain
 	// reports no time stamps); the version served and the cached names are compared, the Load-call counters are not
 	Chain bool `json:"chain"`
+	// FSChain: as Chain, and the first loader of the chain is a FileSystemLoader on a scratch directory
+	FSChain bool `json:"fschain"`
+	// CL: loader 2 is a CompiledLoader on a scratch directory
+	CL bool `json:"cl"`
+}
+
+// sourceOf: the source of version v of a name; version 9 does not parse
+func verSource(name string, v int) string {
+	if v == 9 {
+		return name + ":{{ 9"
+	}
+	return fmt.Sprintf("%s:%d", name, v)
 }
 
 func newCounting() countingLoader {
@@ -96,18 +141,42 @@ type cacheWorld struct {
 	l1 *countingLoader
 	l2 *tsLoader
 	fs *fsLoader
+	// fs1: loader 1 as a FileSystemLoader (chain variant)
+	fs1 *fsLoader
 }
 
-func newCacheWorld(fs, chain bool) *cacheWorld {
+func newCacheWorld(fs, chain, fschain, cl bool) *cacheWorld {
 	w := &cacheWorld{e: twig.New()}
 	c1 := newCounting()
 	w.l1 = &c1
+	if fschain {
+		dir, err := os.MkdirTemp("", "verif-c15-")
+		if err != nil {
+			panic("harness: " + err.Error())
+		}
+		inner := twig.NewFileSystemLoader([]string{dir})
+		inner.SetSuffix("")
+		w.fs1 = &fsLoader{inner: inner, dir: dir, loads: map[string]int{}}
+		w.l2 = &tsLoader{newCounting()}
+		w.e.RegisterLoader(twig.NewChainLoader([]twig.Loader{w.fs1, w.l2}))
+		return w
+	}
 	if chain {
 		w.l2 = &tsLoader{newCounting()}
 		w.e.RegisterLoader(twig.NewChainLoader([]twig.Loader{w.l1, w.l2}))
 		return w
 	}
 	w.e.RegisterLoader(w.l1)
+	if cl {
+		dir, err := os.MkdirTemp("", "verif-c15-")
+		if err != nil {
+			panic("harness: " + err.Error())
+		}
+		os.Mkdir(dir+"/a", 0o755)
+		w.fs = &fsLoader{inner: twig.NewCompiledLoader(dir + "/a"), dir: dir, loads: map[string]int{}, compiled: true}
+		w.e.RegisterLoader(w.fs)
+		return w
+	}
 	if fs {
 		dir, err := os.MkdirTemp("", "verif-c15-")
 		if err != nil {
@@ -130,6 +199,9 @@ func newCacheWorld(fs, chain bool) *cacheWorld {
 func (w *cacheWorld) close() {
 	if w.fs != nil {
 		os.RemoveAll(w.fs.dir)
+	}
+	if w.fs1 != nil {
+		os.RemoveAll(w.fs1.dir)
 	}
 }
 
@@ -164,7 +236,8 @@ func (w *cacheWorld) apply(op *COp) (served int, msg string) {
 		case errors.Is(err, twig.ErrTemplateNotFound):
 			return 0, ""
 		default:
-			return -2, err.Error()
+			// (neither output nor not-found: what a source that does not parse gives)
+			return -3, err.Error()
 		}
 	case "register":
 		if err := w.e.RegisterString(op.N, fmt.Sprintf("%s:%d", op.N, op.V)); err != nil {
@@ -180,24 +253,27 @@ func (w *cacheWorld) apply(op *COp) (served int, msg string) {
 			return -2, err.Error()
 		}
 	case "put":
-		if op.I == 1 {
-			w.l1.content[op.N] = op.V
-		} else if w.fs != nil {
-			p := w.fs.dir + slotDir(op.I) + op.N
-			if err := os.WriteFile(p, []byte(fmt.Sprintf("%s:%d", op.N, op.V)), 0o644); err != nil {
+		if op.I == 1 && w.fs1 != nil {
+			if err := os.WriteFile(w.fs1.dir+"/"+op.N, []byte(verSource(op.N, op.V)), 0o644); err != nil {
 				return -2, "harness: " + err.Error()
 			}
-			mt := fsEpoch.Add(time.Duration(op.Mt) * time.Second)
-			os.Chtimes(p, mt, mt)
+		} else if op.I == 1 {
+			w.l1.content[op.N] = op.V
+		} else if w.fs != nil {
+			if err := w.fs.write(op.I, op.N, op.V, op.Mt); err != nil {
+				return -2, "harness: " + err.Error()
+			}
 		} else {
 			w.l2.content[op.N] = op.V
 			w.l2.mtime[op.N] = op.Mt
 		}
 	case "delete":
-		if op.I == 1 {
+		if op.I == 1 && w.fs1 != nil {
+			os.Remove(w.fs1.dir + "/" + op.N)
+		} else if op.I == 1 {
 			w.l1.content[op.N] = 0
 		} else if w.fs != nil {
-			os.Remove(w.fs.dir + slotDir(op.I) + op.N)
+			w.fs.remove(op.I, op.N)
 		} else {
 			w.l2.content[op.N] = 0
 		}
@@ -275,11 +351,14 @@ func describe(op *COp) string {
 
 func runCacheHist(c *CCase, rec *bufio.Writer, traceNo int) (res Result) {
 	res = Result{Prop: c.Prop, Key: c.Key, Tags: c.Tags, Pass: true, Runs: len(c.Ops)}
-	w := newCacheWorld(c.FS, c.Chain)
+	w := newCacheWorld(c.FS, c.Chain, c.FSChain, c.CL)
 	defer w.close()
 	if c.Auto {
 		w.e.SetAutoReload(true)
 	}
+	// names whose cache entry is left open: from a render that reported a source that does not parse until the
+	// name is served again (whether the older entry is kept meanwhile is not stated)
+	open := map[string]bool{}
 	var trail []string
 	defer func() {
 		if p := recover(); p != nil {
@@ -301,8 +380,32 @@ func runCacheHist(c *CCase, rec *bufio.Writer, traceNo int) (res Result) {
 		}
 		if len(op.Obs.Loads) == 2 {
 			want := op.Obs
-			if c.Chain {
+			if c.Chain || c.FSChain {
 				want.Loads = got.Loads
+			}
+			if op.Op == "render" && want.Served == -3 {
+				open[op.N] = true
+			} else if (op.Op == "render" && want.Served > 0) || op.Op == "register" || op.Op == "regcompiled" {
+				delete(open, op.N)
+			}
+			if len(open) > 0 {
+				keep := func(names []string) (out []string) {
+					for _, n := range names {
+						if !open[n] {
+							out = append(out, n)
+						}
+					}
+					return
+				}
+				want.Cached = keep(want.Cached)
+				cmp := got
+				cmp.Cached = keep(got.Cached)
+				if d := sameObs(want, cmp); d != "" {
+					res.Pass = false
+					res.Fails = append(res.Fails, Fail{Run: fmt.Sprintf("op%d", i+1), Why: "state-differs", Got: d + " " + msg, Src: strings.Join(trail, " ; ")})
+					return
+				}
+				continue
 			}
 			if d := sameObs(want, got); d != "" {
 				res.Pass = false
